@@ -15,6 +15,26 @@ CHECKS = {
          "Every subset of a hash-colliding/awkward-name universe at every fanout 8..1024 (plus deep-collision universe, threshold-straddling and large generated sets) is built with the real builders, reified and compared with the Go map of its entries through all lookup entry points, both iterators and Length; both hashBits helpers are compared with plain arithmetic for every (width, level).",
          "Names limited to the universes; murmur3 implementation (spaolacci) shared with the code under test. hashBits sweep needs the verif-tagged export hooks.",
          "DESIGN.md §5 C02"),
+ "C04": ("explicit-state BFS over Seek/Read histories vs io.ReadSeeker model",
+         "Breadth-first search over all histories of Read(k)/Seek(o,whence) with boundary arguments on single-block, wrapped and multi-level files, one and two readers (same node / separate nodes), deduplicated on (offset, inner-reader flag, creation offset) read from the implementation through a build-tagged hook, until no new state; plus all depth-3 histories without deduplication.",
+         "State key argued over-fine at worst and cross-checked by the un-deduplicated run; offsets confined to [-(L+1),2L+2].",
+         "DESIGN.md §5 C04"),
+ "C09": ("bounded-exhaustive message product x deviation-bounded wire presentations, differential vs gogo-protobuf",
+         "Full product of 290304 logical messages in canonical form, and every wire presentation within 1-2 deviations (field transposition, packed run, unknown fields, non-minimal varints) of a covering corpus plus all permutations of small messages, decoded by this library and by the gogo codec generated from unixfs.proto; encode direction, canonical byte equality and permission bits checked.",
+         "Reference = gogo-protobuf codec of boxo's unixfs_pb. Values limited to the boundary menus.",
+         "DESIGN.md §5 C09"),
+ "C13": ("bounded-exhaustive byte strings + hostile DAG menus under recover() and step budget",
+         "Every byte string up to length 4/5 over a protobuf-aware alphabet through the three decoders; every root block from payload x link menus (bitfield longer/shorter, fanout mismatch between parent and child, short names, lying sizes, missing blocks, wrong types) reified lazily and with preload and exercised through every node operation; a panic, a non-terminating iterator/read or a step-budget overrun is a violation.",
+         "DAG depth <= 3, <= 3 links; work bound is a generous step budget on small DAGs, not an asymptotic statement.",
+         "DESIGN.md §5 C13"),
+ "C14": ("bounded-exhaustive dispatch-table enumeration",
+         "Every node kind, every Data payload class (absent, garbage, each type, out-of-range, each invalid shard parameter) x link shapes x 3 reifier entry points x built/decoded, plus real files and shards from both writers: kind, error, name-addressable lookups, Substrate() identity and byte-exact re-encoding.",
+         "Oracle is the statement's dispatch table written out by hand.",
+         "DESIGN.md §5 C14"),
+ "C15": ("bounded-exhaustive link-list enumeration vs map-node contract",
+         "Every link list of length <= 4/5 over {absent,'',a,b} (all orders, duplicates) viewed as directory / link map (5 payload classes), built directly and decoded, and every sharded directory of the universe subsets from both writers: iteration count == Length, over-read error, yielded keys resolvable, unyielded keys absent, four lookup entry points and both iterators agree.",
+         "Alphabet of 4 names.",
+         "DESIGN.md §5 C15"),
  "C05": ("bounded-exhaustive range/lookup/path enumeration with request log vs independent block-span model",
          "Every range [a,b) of every small file shape (both writers), every member/non-member lookup on every sharded directory of the universe subsets (cold and warm), every path (and perturbation) of every small tree: the set of links requested from storage must be a subset of what an independent walk of the stored blocks says the request needs.",
          "File DAGs are those either writer produces (BlockSizes present). Model parses dag-pb/UnixFS itself (protowire + gogo).",
